@@ -101,7 +101,64 @@ def scan_list_joins():
     return sorted(set(out), key=lambda r: r[1])
 
 
+def scan_arrow_literals():
+    """wrapf.py: every string constant (docstrings excluded) that contains the binding arrow `=>`: (function, can be
+    continued after the arrow).  Continuable = has the break hint `=>\\t`, or is the bare arrow (joined with hints by the
+    caller), or binds a single generated name (`generic :: assignment(=) => ...`)."""
+    tree = ast.parse(open(os.path.join(common.REPO, "shroud", "wrapf.py")).read())
+    doc = set()
+    for n in ast.walk(tree):
+        if isinstance(n, (ast.FunctionDef, ast.ClassDef, ast.Module)) and n.body and isinstance(n.body[0], ast.Expr) \
+                and isinstance(n.body[0].value, ast.Constant) and isinstance(n.body[0].value.value, str):
+            doc.add(id(n.body[0].value))
+    out = []
+    for fn in ast.walk(tree):
+        if not isinstance(fn, ast.FunctionDef):
+            continue
+        in_list = set()
+        for n in ast.walk(fn):
+            if isinstance(n, ast.List):
+                in_list.update(id(e) for e in n.elts)
+        for n in ast.walk(fn):
+            if isinstance(n, ast.Constant) and isinstance(n.value, str) and "=>" in n.value and id(n) not in doc:
+                v = n.value
+                # a bare arrow is fine only as an element of a list of parts (the parts are joined with break hints)
+                ok = "=>\t" in v or (v.strip() == "=>" and id(n) in in_list) or "assignment(=)" in v
+                out.append((fn.name, n.lineno, ok))
+    return sorted(set(out), key=lambda r: r[1])
+
+
+LONG_FIELDS = ("{f_var}", "{c_var_context}", "{F_result}", "{F_pointer}", "{c_var_capsule}", "{c_var}", "{f_var_len}", "{c_var_dimension}")
+
+
+def scan_f_statement_lines():
+    """Fortran executable-statement templates of statements.fc_statements (entries named f_*; keys declare / pre_call /
+    call / post_call): (entry, key, index, number of placeholders that expand to user-chosen or derived long names, has a
+    break hint).  A line that carries two or more such names can exceed the line limit unless it can be continued."""
+    code = ("import json\nfrom shroud import statements\nout=[]\n"
+            "for st in statements.fc_statements:\n"
+            "    nm = st.get('name', '')\n"
+            "    if not nm.startswith('f_'): continue\n"
+            "    for key in ('declare', 'pre_call', 'call', 'post_call'):\n"
+            "        v = st.get(key) or []\n"
+            "        for i, line in enumerate(v if isinstance(v, list) else [v]):\n"
+            "            if isinstance(line, str): out.append([nm, key, i, line])\n"
+            "print(json.dumps(out))\n")
+    e = dict(os.environ, PYTHONPATH=common.REPO, PYTHONDONTWRITEBYTECODE="1")
+    p = subprocess.run([sys.executable, "-c", code], stdout=subprocess.PIPE, stderr=subprocess.PIPE, text=True, env=e)
+    if p.returncode:
+        raise RuntimeError(p.stderr[-1000:])
+    import json
+    rows = []
+    for nm, key, i, line in json.loads(p.stdout.strip().split("\n")[-1]):
+        n = sum(line.count(f) for f in LONG_FIELDS)
+        rows.append((nm, key, i, n, "\t" in line, "_result" in nm))
+    return rows
+
+
 def regenerate():
+    fst = scan_f_statement_lines()
+    arrows = scan_arrow_literals()
     joins = scan_list_joins()
     rows = scan()
     d = defaults()
@@ -119,9 +176,19 @@ def regenerate():
           "",
           "/-- wrapf.py: every join with a comma-and-blank separator (lists inside Fortran statements): (function, has break hint) -/",
           "def fortranListJoins : List (String × Bool) := [" + ", ".join('("%s", %s)' % (f, "true" if h else "false") for f, _, h in joins) + "]",
+          "",
+          "/-- wrapf.py: every string constant with the binding arrow `=>`: (function, can be continued after the arrow) -/",
+          "def fortranArrowLiterals : List (String × Bool) := [" + ", ".join('("%s", %s)' % (f, "true" if ok else "false") for f, _, ok in arrows) + "]",
+          "",
+          "/-- Fortran executable-statement templates (fc_statements entries f_*): (entry, key, index, number of placeholders for",
+          "    long names, has break hint, entry for a function RESULT (its names are generated constants such as SHT_rv)) -/",
+          "def fStatementLines : List (String × String × Nat × Nat × Bool × Bool) := [",
+          ",\n".join('  ("%s", "%s", %d, %d, %s, %s)' % (a, b, c, d, "true" if h else "false", "true" if rs else "false") for a, b, c, d, h, rs in fst),
+          "]",
           "", "end Shroud.Gen.LineCfg"]
     changed = write_if_changed(GEN, "\n".join(L) + "\n")
-    return {"rows": rows, "defaults": d, "splicer_branches": br, "fortran_list_joins": joins, "changed": changed}
+    return {"rows": rows, "defaults": d, "splicer_branches": br, "fortran_list_joins": joins, "f_statement_lines": len(fst), "arrow_literals": arrows,
+            "f_statement_lines_with_two_long_names": len([1 for r in fst if r[3] >= 2]), "changed": changed}
 
 
 if __name__ == "__main__":
